@@ -12,7 +12,7 @@ CHECK = {
                   "error result is tolerated, a wrong result never; 25 s without a result is counted as inconclusive, not judged. Schedule of discv5/uTP goroutines is the OS scheduler's.",
     "technique": "property-based testing (rapid): end-to-end differential (received bytes == stored bytes) and validity predicate over ENR replies, with injected link faults and measured datagram sizes",
     "runs": [
-        {"name": "fc", "run": "^TestC08_", "checks": {"quick": 90, "thorough": 400}, "shards": {"quick": 6, "thorough": 16}},
+        {"name": "fc", "run": "^TestC08_", "checks": {"quick": 45, "thorough": 50}, "shards": {"quick": 6, "thorough": 16}, "rounds": {"quick": 2, "thorough": 6}},
     ],
     "rule": "rapid draws (version set asker, version set responder, held?, size, key, table spec list, asker in table?, link policy, direct/end-to-end, second concurrent asker). "
             "Non-trivial = size within +-12 of the inline threshold, inline or uTP payload compared, non-empty or size-truncated ENR reply; distinct = distinct plan digests.",
